@@ -18,7 +18,7 @@ var SingleFieldSubscriptionsRule = Rule{
 				return
 			}
 
-			fields := retrieveTopFieldNames(operation.SelectionSet)
+			fields := retrieveTopFieldNames(walker.Schema, operation.SelectionSet)
 
 			name := "Anonymous Subscription"
 			if operation.Name != "" {
@@ -54,9 +54,26 @@ type topField struct {
 	position     *ast.Position
 }
 
-func retrieveTopFieldNames(selectionSet ast.SelectionSet) []*topField {
+func retrieveTopFieldNames(schema *ast.Schema, selectionSet ast.SelectionSet) []*topField {
 	fields := []*topField{}
 	inFragmentRecursive := map[string]bool{}
+	// a fragment contributes root fields only if its type condition applies to the subscription type
+	applies := func(typeCondition string) bool {
+		root := schema.Subscription
+		if typeCondition == "" || typeCondition == root.Name {
+			return true
+		}
+		def := schema.Types[typeCondition]
+		if def == nil || !def.IsAbstractType() {
+			return false
+		}
+		for _, possible := range schema.GetPossibleTypes(def) {
+			if possible.Name == root.Name {
+				return true
+			}
+		}
+		return false
+	}
 	var walk func(selectionSet ast.SelectionSet)
 	walk = func(selectionSet ast.SelectionSet) {
 		for _, selection := range selectionSet {
@@ -72,7 +89,9 @@ func retrieveTopFieldNames(selectionSet ast.SelectionSet) []*topField {
 					position:     selection.GetPosition(),
 				})
 			case *ast.InlineFragment:
-				walk(selection.SelectionSet)
+				if applies(selection.TypeCondition) {
+					walk(selection.SelectionSet)
+				}
 			case *ast.FragmentSpread:
 				if selection.Definition == nil {
 					return
@@ -80,7 +99,9 @@ func retrieveTopFieldNames(selectionSet ast.SelectionSet) []*topField {
 				fragment := selection.Definition.Name
 				if !inFragmentRecursive[fragment] {
 					inFragmentRecursive[fragment] = true
-					walk(selection.Definition.SelectionSet)
+					if applies(selection.Definition.TypeCondition) {
+						walk(selection.Definition.SelectionSet)
+					}
 				}
 			}
 		}
